@@ -154,7 +154,9 @@ HookS ==
                          expRe == IF envM \in Live /\ ~(case.hook = "early") THEN Rec(reM) ELSE reM
                      IN IF Line.st # exp THEN Lose(<<p, "GO_ERROR", Line.st, exp>>)
                         ELSE IF expRe = "recorded" /\ reM = "open" THEN Lose(<<p, "GO_ERROR", "no end of run", reM>>)
-                        ELSE /\ lk' = "none" /\ envM' = Line.st /\ srvErr' = FALSE
+                        \* (the watcher's GO_ERROR and the API handler's one after a failed transition may both be due,
+                        \* in either order: the first release is booked on the watcher's)
+                        ELSE /\ lk' = "none" /\ envM' = Line.st /\ srvErr' = (IF w = "fired" THEN srvErr ELSE FALSE)
                              /\ w' = IF w = "fired" /\ ~refused THEN "stop" ELSE w
                              /\ UNCHANGED <<mode, reM, nsent, nrecv>>
                 ELSE IF Line.what \in {"START_ACTIVITY", "STOP_ACTIVITY"}
